@@ -8,6 +8,9 @@ import ucheck
 from vlib import VERIF
 
 SPEC = os.path.join(VERIF, 'spec', 'acl')
+# the recursive I-layer operators (MidBuild over 50..200 values) need more than the default worker-thread stack; vlib.tlc passes
+# os.environ on (it only removes JAVA_TOOL_OPTIONS), and the JVM honours _JAVA_OPTIONS
+os.environ.setdefault('_JAVA_OPTIONS', '-Xss64m')
 
 
 def build_driver(ctx):
